@@ -45,10 +45,11 @@ type vfPlan struct {
 	sn      int
 	fired   bool
 	durable int
+	updates int
 }
 
 func (p *vfPlan) arm(kind string, sn int) {
-	p.kind, p.sn, p.fired, p.durable = kind, sn, false, 0
+	p.kind, p.sn, p.fired, p.durable, p.updates = kind, sn, false, 0, 0
 }
 
 func (p *vfPlan) step() {
@@ -99,6 +100,11 @@ type vfDB struct {
 func (d *vfDB) Update(f func(tx walletdb.ReadWriteTx) error, reset func()) error {
 	d.p.step()
 	if d.p.kind == "idx" && !d.p.fired {
+		// sn = how many database updates of this call succeed first
+		if d.p.updates < d.p.sn {
+			d.p.updates++
+			return d.DB.Update(f, reset)
+		}
 		d.p.fired = true
 		return errVfInjected
 	}
